@@ -24,6 +24,8 @@ func WithSem(t *rapid.T, s *Spec) {
 			s.Terms[i].Tag = pick()
 		}
 	}
+	// "%left <tag> symbols": tokens declared by a precedence line take its tag
+	s.TagPrecLines(func() bool { return rapid.Bool().Draw(t, "prectag") }, pick)
 	for i := range s.NTs {
 		s.NTs[i].Tag = ""
 		if rapid.IntRange(0, 4).Draw(t, "ntag") > 0 {
